@@ -261,7 +261,7 @@ pub fn drive_c01(out: &mut dyn std::io::Write, seed: u64, thorough: bool) {
                 0x8000_0000_0000_0000,
             ]);
         }
-        let reps = if thorough { 6 } else { 1 };
+        let reps = if thorough { 24 } else { 1 };
         for _ in 0..reps {
             for &p in positions.iter() {
                 let lens: &[usize] = if thorough { &lens_t } else { &lens_q };
